@@ -161,6 +161,9 @@ def run_C01(ctx):
     # 3. look-alike names, invalid UTF-8, partial BOM, multi-byte runes
     r = tlc_stream(ctx, "StreamGenExtra", ["LF", "CR", "COLON", "SP", "data", "retry", "BOM"] + EXTRA, [], 3 if q else 4, machine=False, timeout=3000)
     drive_stream(ctx, r.stdout_path, "extra", 12 if q else 16, agg)
+    # 3b. bytes / runes that Unicode-aware helpers treat as space or line break but the format does not
+    r = tlc_stream(ctx, "StreamGenUniSpace", ["LF", "CR", "COLON", "SP", "data", "id", "x", "VT", "FORMFEED", "NEL", "NBSP", "LS"], [], 4 if q else 5, machine=False, timeout=3000)
+    drive_stream(ctx, r.stdout_path, "unispace", 0 if q else 12, agg)
     # 4. whole lines: longer streams
     r = tlc_stream(ctx, "StreamGenLines", [], LINES, 3 if q else 4, machine=False, timeout=3000)
     drive_stream(ctx, r.stdout_path, "lines", 0 if q else 14, agg)
@@ -175,7 +178,7 @@ def run_C01(ctx):
         "traces_validated_against_impl": agg["behaviours"],
         "samples": agg["samples"][:4],
         "evaluations": agg["evaluations"], "distinct_nontrivial": agg["distinct"],
-        "rule": "every token string over the generation alphabets up to the stated length (13 core tokens; 19 look-alike/invalid-UTF-8 tokens; "
+        "rule": "every token string over the generation alphabets up to the stated length (13 core tokens; 19 look-alike/invalid-UTF-8 tokens; 12 tokens with VT, FF, U+0085, U+00A0, U+2028; "
                 "17 line templates; 9 large-line templates with 4 KiB/64 KiB fillers), each expanded to bytes with Bytes.tla's table and run through "
                 "sse.Read and a Connection, for a clean end and an end by read error, under: whole input, every single cut, byte-at-a-time, a "
                 "zero-length read, every pair of cuts for short inputs, end reported with/without the last chunk, and every early-stop position; "
